@@ -16,13 +16,23 @@ import (
 	"github.com/bytom/bytom/crypto/ed25519/chainkd"
 )
 
-// C28: chainkd derivation / signatures and the pseudohsm key file, real implementation
+// C28: chainkd derivation / signatures and the pseudohsm key file / key store, real implementation
 // in-process.  All values hex ("-" empty), paths comma separated ("." = empty path).
 // `#want=<result>|any` carries the direct oracle's requirement, `#kind=` the generator class.
 //
 //	root <seed> | xpub <xprv> | child <xprv> <sel> <0|1> | pubchild <xpub> <sel>
 //	derive <xprv> <path> | pubderive <xpub> <path> | sign <xprv> <msg> | verify <xpub> <msg> <sig>
 //	ks <auth> <auth2>      (encrypt with auth, decrypt with auth2; light scrypt parameters)
+//
+// Stateful key-store histories on ONE running pseudohsm.HSM over a temp directory (slots = aliases
+// k0..k2, passwords p0..p2 by number; a case starts with `reset`):
+//
+//	reset | hcreate <k> <pw> | hsign <k> <pw> | hcheck <k> <pw> | hresetpw <k> <old> <new>
+//	| hdelete <k> <pw> | hreload                          => ok | err
+//
+// compared with the reference model Model/HSM.lean (an operation succeeds iff the presented
+// password is the slot's CURRENT one) and with the direct oracle "the long-lived HSM answers every
+// hsign / hcheck exactly like a NEW HSM object over the same directory" (and signatures verify).
 
 func c28h(b []byte) string {
 	if len(b) == 0 {
@@ -172,7 +182,159 @@ func c28impl(w []string) (out string) {
 	return "bad-op"
 }
 
+// ---- stateful HSM histories -------------------------------------------------------------
+
+type c28hsm struct {
+	dir   string
+	h     *pseudohsm.HSM
+	xpubs map[int]chainkd.XPub // slot -> xpub of the key created there (kept after delete)
+	light bool
+}
+
+var c28cur *c28hsm
+var c28nextLight = true // scrypt parameters of the HSM the next h-op creates (set by `reset`)
+
+func c28pw(i string) string { return "pass-" + i + "-word" }
+
+func c28hsmNew(dir string, light bool) *pseudohsm.HSM {
+	if light {
+		h, _ := pseudohsm.VerifNew(dir, 2, 1)
+		return h
+	}
+	h, _ := pseudohsm.New(dir)
+	return h
+}
+
+func c28hsmReset(light bool) {
+	c28hsmClose()
+	dir, err := os.MkdirTemp("/var/tmp", "verif-c28-hsm-")
+	if err != nil {
+		panic(err)
+	}
+	c28cur = &c28hsm{dir: dir, h: c28hsmNew(dir, light), xpubs: map[int]chainkd.XPub{}, light: light}
+}
+
+func c28hsmClose() {
+	if c28cur != nil {
+		pseudohsm.VerifClose(c28cur.h)
+		os.RemoveAll(c28cur.dir)
+		c28cur = nil
+	}
+}
+
+// one HSM op on the long-lived object; for hsign / hcheck also on a NEW object over the same dir
+func c28hsmOp(c *Ctx, w []string) (out string, fail string) {
+	defer func() {
+		if r := recover(); r != nil {
+			out, fail = "panic", fmt.Sprint("HSM operation panicked: ", r)
+		}
+	}()
+	st := c28cur
+	res := func(err error) string {
+		if err != nil {
+			return "err"
+		}
+		return "ok"
+	}
+	slot := func(i int) (int, chainkd.XPub, bool) {
+		var k int
+		fmt.Sscanf(w[i], "%d", &k)
+		x, ok := st.xpubs[k]
+		return k, x, ok
+	}
+	switch {
+	case w[0] == "hcreate" && len(w) == 3:
+		k, _, _ := slot(1)
+		xp, _, err := st.h.XCreate(fmt.Sprintf("k%d", k), c28pw(w[2]), "en")
+		if err == nil {
+			st.xpubs[k] = xp.XPub
+		}
+		return res(err), ""
+	case (w[0] == "hsign" || w[0] == "hcheck") && len(w) == 3:
+		_, xpub, known := slot(1)
+		if !known {
+			xpub = chainkd.XPub{1, 2, 3} // never created: unknown key
+		}
+		fresh := c28hsmNew(st.dir, st.light)
+		defer pseudohsm.VerifClose(fresh)
+		if w[0] == "hcheck" {
+			_, e1 := st.h.LoadChainKDKey(xpub, c28pw(w[2]))
+			_, e2 := fresh.LoadChainKDKey(xpub, c28pw(w[2]))
+			if (e1 == nil) != (e2 == nil) {
+				fail = fmt.Sprintf("LoadChainKDKey on the running HSM: %v; on a new HSM over the same directory: %v", e1, e2)
+			}
+			return res(e1), fail
+		}
+		path := [][]byte{{byte(len(w[2]))}, []byte(w[1])}
+		msg := []byte("msg " + w[1] + w[2])
+		s1, e1 := st.h.XSign(xpub, path, msg, c28pw(w[2]))
+		s2, e2 := fresh.XSign(xpub, path, msg, c28pw(w[2]))
+		switch {
+		case (e1 == nil) != (e2 == nil):
+			fail = fmt.Sprintf("XSign on the running HSM: %v; on a new HSM over the same directory: %v", e1, e2)
+		case e1 == nil && !bytes.Equal(s1, s2):
+			fail = "XSign on the running HSM and on a new HSM give different signatures"
+		case e1 == nil && !xpub.Derive(path).Verify(msg, s1):
+			fail = "XSign signature does not verify under the derived xpub"
+		}
+		return res(e1), fail
+	case w[0] == "hresetpw" && len(w) == 4:
+		_, xpub, known := slot(1)
+		if !known {
+			xpub = chainkd.XPub{1, 2, 3}
+		}
+		return res(st.h.ResetPassword(xpub, c28pw(w[2]), c28pw(w[3]))), ""
+	case w[0] == "hdelete" && len(w) == 3:
+		k, xpub, known := slot(1)
+		if !known {
+			xpub = chainkd.XPub{1, 2, 3}
+		}
+		err := st.h.XDelete(xpub, c28pw(w[2]))
+		if err == nil {
+			delete(st.xpubs, k)
+		}
+		return res(err), ""
+	case w[0] == "hreload" && len(w) == 1:
+		pseudohsm.VerifClose(st.h)
+		st.h = c28hsmNew(st.dir, st.light)
+		return "ok", ""
+	}
+	return "bad-op", ""
+}
+
 func c28op(c *Ctx, line string) string {
+	if f := strings.Fields(line); len(f) > 0 && (f[0] == "reset" || strings.HasPrefix(f[0], "h")) {
+		var w []string
+		kind := "hsm"
+		for _, x := range f {
+			if strings.HasPrefix(x, "#kind=") {
+				kind = x[6:]
+			} else if !strings.HasPrefix(x, "#") {
+				w = append(w, x)
+			}
+		}
+		if w[0] == "reset" {
+			// a case boundary: the key store (temp dir + HSM object) is created by the first h-op
+			c28hsmClose()
+			c28nextLight = kind != "hsm-lightscrypt"
+			c.Op(line, "ok")
+			return "ok"
+		}
+		if c28cur == nil {
+			c28hsmReset(c28nextLight)
+		}
+		out, fail := c28hsmOp(c, w)
+		if out == "bad-op" {
+			return out
+		}
+		c.Op(line, out)
+		c.Count(w[0] + "/" + kind + "/" + out)
+		c.Distinct(line)
+		if fail != "" {
+			c.Fail("hsm-history:"+strings.Join(w, " "), fail)
+		}
+		return out
+	}
 	var w []string
 	want, kind := "", "none"
 	for _, x := range strings.Fields(line) {
@@ -235,6 +397,7 @@ func c28randPath(c *Ctx, depth int) [][]byte {
 
 // everything the property says about one (seed, path, message)
 func c28case(c *Ctx, seed []byte, path [][]byte, msg []byte) {
+	c28op(c, "reset #kind=stateless")
 	rootHex := c28op(c, "root "+c28h(seed)+" #kind=root")
 	rb, _ := c28unh(rootHex)
 	root, _ := c28xprv(rb)
@@ -393,8 +556,60 @@ func c28keystore(c *Ctx, hsm bool) {
 	c28op(c, fmt.Sprintf("derive %s %s #kind=hsm", c28h(xprv[:]), c28pathStr(path)))
 }
 
+// a random history over 3 slots and 3 passwords; `probe` re-checks every (slot, password) pair
+func c28history(c *Ctx, steps int, kind string) {
+	c28op(c, "reset #kind="+kind)
+	tag := " #kind=" + kind
+	cur := map[int]int{} // harness-side mirror only to bias the generator towards interesting ops
+	pick := func() int { return c.Rng.Intn(3) }
+	for i := 0; i < steps; i++ {
+		k := pick()
+		pw, known := cur[k]
+		if !known || c.Rng.Intn(3) == 0 {
+			pw = pick()
+		}
+		switch r := c.Rng.Intn(20); {
+		case r < 3 || (len(cur) == 0 && r < 10):
+			p := pick()
+			if c28op(c, fmt.Sprintf("hcreate %d %d%s", k, p, tag)) == "ok" {
+				cur[k] = p
+			}
+		case r < 8:
+			c28op(c, fmt.Sprintf("hsign %d %d%s", k, pw, tag))
+		case r < 12:
+			c28op(c, fmt.Sprintf("hcheck %d %d%s", k, pw, tag))
+		case r < 16:
+			n := pick()
+			if c28op(c, fmt.Sprintf("hresetpw %d %d %d%s", k, pw, n, tag)) == "ok" {
+				cur[k] = n
+			}
+			// the old and the new password right after a reset
+			c28op(c, fmt.Sprintf("hcheck %d %d%s", k, pw, tag))
+			c28op(c, fmt.Sprintf("hsign %d %d%s", k, n, tag))
+		case r < 17:
+			if c28op(c, fmt.Sprintf("hdelete %d %d%s", k, pw, tag)) == "ok" {
+				delete(cur, k)
+			}
+		case r < 18:
+			c28op(c, "hreload"+tag)
+		default:
+			for kk := 0; kk < 3; kk++ {
+				for pp := 0; pp < 3; pp++ {
+					op := "hcheck"
+					if c.Rng.Intn(3) == 0 {
+						op = "hsign"
+					}
+					c28op(c, fmt.Sprintf("%s %d %d%s", op, kk, pp, tag))
+				}
+			}
+		}
+	}
+	c28hsmClose()
+}
+
 func runC28(c *Ctx) {
-	c.Rule = "random and structured seeds (0..64 bytes), non-hardened paths of depth 0..8 (a few of depth 64) with selectors of 0..72 bytes, messages of 0..100 bytes: root key, xpub, private-side derivation, public-side derivation (must agree), single hardened / non-hardened steps, signature, verification under the own key (true), another key, another message, a tampered or truncated signature (false); key file with right / wrong password and tampered ciphertext; HSM on disk. Precondition-violating keys (scalar overflow, invalid xpub point) are run for the panic branches (differential only). A case is distinct by its op line."
+	defer c28hsmClose()
+	c.Rule = "random and structured seeds (0..64 bytes), non-hardened paths of depth 0..8 (a few of depth 64) with selectors of 0..72 bytes, messages of 0..100 bytes: root key, xpub, private-side derivation, public-side derivation (must agree), single hardened / non-hardened steps, signature, verification under the own key (true), another key, another message, a tampered or truncated signature (false); key file with right / wrong password and tampered ciphertext; HSM on disk. Key-store histories: one running HSM per case over a temp directory, 30-60 random operations (create / sign / check-password / reset-password incl. old and new password right after it / delete / new HSM object / probe of all 9 slot-password pairs) over 3 aliases and 3 passwords, compared with the reference model and with a new HSM object over the same directory. Precondition-violating keys (scalar overflow, invalid xpub point) are run for the panic branches (differential only). A case is distinct by its op line."
 	if c.Replay != "" {
 		for _, l := range c.ReplayLines() {
 			c28op(c, l)
@@ -403,6 +618,15 @@ func runC28(c *Ctx) {
 	}
 	for _, l := range c.CorpusLines() {
 		c28op(c, l)
+	}
+	// key-store histories on one running HSM (light scrypt through the verif hook; a few with the
+	// production LightScrypt parameters)
+	nh := 4 + c.N/12
+	for i := 0; i < nh; i++ {
+		c28history(c, 30+c.Rng.Intn(30), "hsm")
+	}
+	for i := 0; i < 1+c.N/400; i++ {
+		c28history(c, 8, "hsm-lightscrypt")
 	}
 	// fixed small cases first
 	c28case(c, nil, nil, nil)
@@ -416,6 +640,7 @@ func runC28(c *Ctx) {
 		}
 		c28case(c, seed, c28randPath(c, depth), c28bytes(c, c.Rng.Intn(100)))
 		if i%6 == 0 {
+			c28op(c, "reset #kind=stateless")
 			c28keystore(c, i%60 == 0)
 		}
 		if i%10 == 3 {
